@@ -52,7 +52,7 @@ func (sc *scen) fundRenter(txn *types.V2Transaction, amount types.Currency, drop
 	return
 }
 
-var formMuts = join([]string{"form-allowance-zero", "form-allowance-low", "form-collateral-max", "form-too-soon",
+var formMuts = join([]string{"cut-request-half", "cut-after-request", "cut-second-half", "form-allowance-zero", "form-allowance-low", "form-collateral-max", "form-too-soon",
 	"form-too-long", "form-fee-zero", "underfunded", "fsig-flip", "fsig-otherkey", "fsig-other", "abort-close", "bad-input-sig"}, ptMuts)
 
 // doForm forms a contract.  flavor: "rich" (payments never run out), "poor"
@@ -164,10 +164,10 @@ func (sc *scen) absRenewal(r types.V2FileContractRenewal) string {
 		z(r.RenterRollover), z(r.HostRollover), sc.absContract(r.NewContract))
 }
 
-var renewMuts = join([]string{"ren-height-low", "ren-too-long", "ren-allowance-zero", "ren-allowance-low", "ren-collateral-max", "coll-edge-below", "coll-edge", "coll-edge-above", "coll-max-exact",
+var renewMuts = join([]string{"cut-request-half", "cut-after-request", "cut-second-half", "ren-height-low", "ren-too-long", "ren-allowance-zero", "ren-allowance-low", "ren-collateral-max", "coll-edge-below", "coll-edge", "coll-edge-above", "coll-max-exact",
 	"ren-fee-zero", "underfunded", "rnsig-flip", "rnsig-other", "rcsig-flip", "rcsig-other", "abort-close", "bad-input-sig", "unknown-cid", "renewed-cid"}, ptMuts, chalMuts)
 
-var refreshMuts = join([]string{"ren-allowance-zero", "ren-allowance-low", "ren-collateral-max", "coll-edge-below", "coll-edge", "coll-edge-above", "coll-max-exact",
+var refreshMuts = join([]string{"cut-request-half", "cut-after-request", "cut-second-half", "ren-allowance-zero", "ren-allowance-low", "ren-collateral-max", "coll-edge-below", "coll-edge", "coll-edge-above", "coll-max-exact",
 	"ren-fee-zero", "underfunded", "rnsig-flip", "rnsig-other", "rcsig-flip", "rcsig-other", "abort-close", "bad-input-sig", "unknown-cid", "renewed-cid"}, ptMuts, chalMuts)
 
 // doRenewal plays renew (kind "renew") or refresh ("refresh-full", "refresh-partial").
@@ -291,6 +291,8 @@ func (sc *scen) doRenewal(kind, mut string) *outcome {
 		o.validate = func() error { return r.Validate(w.hostKey.PublicKey(), hostTip, existing, w.set.MaxCollateral, partial) }
 	}
 	chain2 := mut != "bad-input-sig"
+	// the host needs the contract's element to build the renewal: it has to be on chain
+	chain1 := ct == nil || ct.confirmed
 	sigsTerm := "None"
 	var hostInputs []types.V2SiacoinInput
 	second := func() (proto4.Object, string) {
@@ -353,9 +355,9 @@ func (sc *scen) doRenewal(kind, mut string) *outcome {
 		w.rentW.ReleaseInputs(nil, []types.V2Transaction{txn})
 	}
 	if kind == "renew" {
-		o.term = fmt.Sprintf("(RRenew %d %s %s %s %d %s %s %s true %v %s)", absID, pterm, z(allowance), z(collateral), ph, z(txFee), z(sum), cterm, chain2, sigsTerm)
+		o.term = fmt.Sprintf("(RRenew %d %s %s %s %d %s %s %s %v %v %s)", absID, pterm, z(allowance), z(collateral), ph, z(txFee), z(sum), cterm, chain1, chain2, sigsTerm)
 	} else {
-		o.term = fmt.Sprintf("(RRefresh %v %d %s %s %s %s %s %s true %v %s)", partial, absID, pterm, z(allowance), z(collateral), z(txFee), z(sum), cterm, chain2, sigsTerm)
+		o.term = fmt.Sprintf("(RRefresh %v %d %s %s %s %s %s %s %v %v %s)", partial, absID, pterm, z(allowance), z(collateral), z(txFee), z(sum), cterm, chain1, chain2, sigsTerm)
 	}
 	if ct != nil {
 		o.newCtr = &ctr{abs: 2*ct.abs + 1, key: key, roots: append([]types.Hash256(nil), ct.roots...)}
